@@ -1,6 +1,6 @@
 (* Property C14 — name order, equality, prefix, hash and URI form are mutually consistent.
    Only theorem statements closed by `exact`, each followed by Print Assumptions. *)
-From Names Require Import Model Order Uri Dec UriRt Wire.
+From Names Require Import Model Order Uri Dec UriRt Wire Spec SpecOk.
 Open Scope N_scope.
 
 (* Comparison is a total order ... *)
@@ -110,6 +110,19 @@ Theorem hash_input_not_injective : exists a b : name,
   a <> b /\ Forall comp_wf a /\ Forall comp_wf b /\ name_hash_input a = name_hash_input b.
 Proof. exact Wire.hash_input_not_injective. Qed.
 Print Assumptions hash_input_not_injective.
+
+(* The decidable oracle predicates that the runner evaluates on the implementation's observations (Spec.v) are
+   satisfied by the model's own answers: an oracle failure is therefore a genuine failure of the property on the
+   implementation (or a divergence from the model), never an artefact of the predicate. *)
+Theorem oracle_sound :
+  (forall a b c, triple_ok (name_cmp a b) (name_cmp b c) (name_cmp a c) (name_cmp b a) (name_cmp c b) (name_cmp c a) = true) /\
+  (forall a b, name_wf a -> name_wf b ->
+     pair_ok (name_cmp a b) (name_eqb a b) (is_prefix a b) (is_prefix b a) (name_bytes a) (name_bytes b) true = true) /\
+  (forall c d, comp_wf c -> comp_wf d -> comp_ok (comp_cmp c d) (comp_eqb c d) (comp_enc c) (comp_enc d) = true) /\
+  (forall n, rt_ok n (name_from_str (name_to_str n)) = true) /\
+  (forall c, crt_ok c (comp_from_str (comp_to_str c)) (comp_from_str (comp_to_canon c)) = true).
+Proof. exact (conj model_triple_ok (conj model_pair_ok (conj model_comp_ok (conj model_rt_ok model_crt_ok)))). Qed.
+Print Assumptions oracle_sound.
 
 (* non-vacuity *)
 Example c14_example_uri :
